@@ -201,6 +201,18 @@ fn main() {
             v["model_order_drift"] = drift.into();
             println!("{}", v);
         }
+        "sseq" => {
+            let doc: serde_json::Value = serde_json::from_str(&std::fs::read_to_string(&args[2]).unwrap()).unwrap();
+            let shards: usize = arg(&args, "--shards", 1);
+            let dir: PathBuf = PathBuf::from(arg(&args, "--out", "out/traces".to_string()));
+            let mut out = TraceOut::new(&dir, "sseq", shards);
+            io::reset(io::Sched::Whole, io::Sched::Whole, None);
+            let (compared, drift) = sorter::replay_sseq(&mut out, &doc);
+            let mut v = out.finish();
+            v["model_steps_compared"] = compared.into();
+            v["model_accounting_drift"] = drift.into();
+            println!("{}", v);
+        }
         "one" => {
             let family = args[2].clone();
             let seed: u64 = args[3].parse().unwrap();
